@@ -75,6 +75,9 @@ REPL += [2 ** 31 - 1]
 REPL_NAMES += ["2^31-1"]
 TRAILER_REPL += REPL[16:]
 TRAILER_REPL_NAMES = REPL_NAMES[:16] + ["own startxref offset", "7"] + REPL_NAMES[16:]
+# (appended after everything else so that the indices in pinned replays stay valid)
+TRAILER_REPL += ["SELFPOS-1"]
+TRAILER_REPL_NAMES += ["own startxref offset - 1 (the white space in front of the section)"]
 LZW_CODE_VALUES = [0, 255, 256, 257, 258, 259, 300, 511, 512, 4095]
 
 _SEEDS = {}
